@@ -401,6 +401,9 @@ def az_probe(rng: random.Random, n: int, replay_case=None) -> list:
 
 # --------------------------------------------------------------------------------------------------
 def run(prop: str, tier: str, seed: int, scratch: Path, replay=None, model_ok=True) -> dict:
+    import time as _t
+    _t0 = _t.time()
+    timing = {}
     rng = random.Random(f'{prop}-{seed}')
     zones = list(ZONES_QUICK) if tier == 'quick' else ZONES_QUICK + ZONES_MORE
     if prop == 'C16' and tier == 'quick':
@@ -438,9 +441,11 @@ def run(prop: str, tier: str, seed: int, scratch: Path, replay=None, model_ok=Tr
     dist = collections.Counter()
     answers = collections.Counter()
     seen = set()
+    timing['implementation_s'] = round(_t.time() - _t0, 1)
     nontriv = 0
     skipped_budget = 0
     skipped_heavy = 0
+    il_in_coq = 0
     files = []
     index = {}
     for z, results in outs:
@@ -459,6 +464,13 @@ def run(prop: str, tier: str, seed: int, scratch: Path, replay=None, model_ok=Tr
             heavy = c.get('slow') or any(r == ['raise', 'EInfiniteLoop'] for _, r in c['results'])
             if prop == 'C16':
                 heavy = bool(c.get('nocoq')) or len(c['draws']) > 400
+                costly = any(r == ['raise', 'EInfiniteLoop'] for _, r in c['results']) or c.get('slow') or \
+                    (c['expr'][0] == 'interval' and c['expr'][2] <= 60 * NS and c['expr'][3] is not None)
+                if not heavy and costly:
+                    # 99 999 rounds of the model (or a second-by-second search over days) take the VM half a minute: only a few of these per run go through Coq
+                    # (the others are still judged by the oracle; ProdTerm / ProdComplete prove the bound)
+                    il_in_coq += 1
+                    heavy = il_in_coq > (0 if tier == 'quick' else 10)
             h = hash(json.dumps([z, c['expr'], c['results']], sort_keys=True))
             if h not in seen and nontrivial(prop, c, decided, ref):
                 nontriv += 1
@@ -476,6 +488,7 @@ def run(prop: str, tier: str, seed: int, scratch: Path, replay=None, model_ok=Tr
             files.append(p)
             index[p.name] = (z, keep[s:s + shard])
 
+    timing['oracle_s'] = round(_t.time() - _t0, 1)
     wf = {}
     if model_ok:
         for p, rc, out in coqrun.eval_cases(files):
@@ -506,6 +519,7 @@ def run(prop: str, tier: str, seed: int, scratch: Path, replay=None, model_ok=Tr
     else:
         corr_failures.append({'error': 'model does not build'})
 
+    timing['coq_s'] = round(_t.time() - _t0, 1)
     az_info = None
     if prop == 'C16' and not replay:
         outs_az, bad_az = az_probe(rng, 4 if tier == 'quick' else 40)
@@ -524,7 +538,8 @@ def run(prop: str, tier: str, seed: int, scratch: Path, replay=None, model_ok=Tr
         'distribution': {'producer_kinds': dict(dist), 'answers': dict(answers), 'zones': zones,
                          'cases_per_zone': PER_ZONE[tier]},
         'extra': {'zones_wf_tz': wf, 'skipped_budget_or_many_draws': skipped_budget, 'not_evaluated_in_coq_too_much_work': skipped_heavy,
-                  'jitter_window_tolerance_ns': 1000, 'azimuth_trigger_probe': az_info},
+                  'jitter_window_tolerance_ns': 1000, 'azimuth_trigger_probe': az_info,
+                  'timing_cumulative': dict(timing, total_s=round(_t.time() - _t0, 1))},
     }
 
 
